@@ -95,6 +95,25 @@ fn crafted() -> Vec<(String, Vec<KEv>)> {
         h.push(t(400));
         v.push((cfg, h));
     }
+    // sequence mode, chords v2 and dynamic macros are outside the kanata-level model: the real code is
+    // run all the same and must not crash (model-free oracle)
+    for cfg in [
+        "(defsrc a b c)\n(deflayer l0 sldr b c)\n",
+        "(defvirtualkeys v1 z)\n(defseq v1 (b c))\n(defsrc a b c)\n(deflayer l0 sldr b c)\n",
+        "(defsrc a b c)\n(deflayer l0 (sequence 50 hidden-delay-type) b c)\n",
+        "(defsrc a b c)\n(deflayer l0 (sequence 50 visible-backspaced) b c)\n",
+        "(defcfg sequence-always-on yes)\n(defsrc a b c)\n(deflayer l0 a b c)\n",
+        "(defcfg sequence-always-on yes sequence-input-mode hidden-delay-type)\n(defvirtualkeys v1 z)\n(defseq v1 (a b))\n(defsrc a b c)\n(deflayer l0 a b c)\n",
+        "(defcfg concurrent-tap-hold yes)\n(defsrc a b c)\n(deflayer l0 a b c)\n(defchordsv2 (a b) c 30 all-released ())\n",
+        "(defsrc a b c)\n(deflayer l0 (dynamic-macro-record 1) (dynamic-macro-play 1) c)\n",
+    ] {
+        for seed in 0..6u64 {
+            let mut r2 = Rng::new(0xC02_5E9 ^ seed);
+            let keys = [code("a"), code("b"), code("c")];
+            let h = wild_history(&mut r2, &keys, 6 + 4 * seed as usize);
+            v.push((cfg.to_string(), h));
+        }
+    }
     // the repeat key buffer (MultiKeyBuffer, 20 slots): one-shot keys accumulate their key codes
     // there when the next ordinary key is pressed; 19 / 20 / 21 / 25 codes
     for n in [19usize, 20, 21, 25] {
